@@ -122,16 +122,22 @@ def releaseIPs (l : List IP) (pod : String) (ips : List Nat) : List IP :=
 def setSt (l : List IP) (ips : List Nat) (st : IPSt) : List IP :=
   l.map fun a => if a.ip ∈ ips then { a with st := st } else a
 
-/-- no pod uses the interface and nothing is queued on it -/
+/-- no pod uses the interface and no request waits on it: neither queued for the factory (`allocating`) nor
+    already ordered and waiting for its address (`danging`; counted since fix 4f8432b) -/
 def Slot.canDispose (dn : List Nat) (s : Slot) : Bool :=
-  s.eni.isNone || (!(s.ips.any (·.inUse)) && (live dn s.alloc4).isEmpty && (live dn s.alloc6).isEmpty)
+  s.eni.isNone || (!(s.ips.any (·.inUse)) && (live dn s.alloc4).isEmpty && (live dn s.alloc6).isEmpty &&
+    (live dn s.dang4).isEmpty && (live dn s.dang6).isEmpty)
 
 /-- the `Len()` calls `canDispose` makes (`&&` short-circuits) -/
 def Slot.canDisposePurge (dn : List Nat) (s : Slot) : Slot :=
   if s.eni.isNone || s.ips.any (·.inUse) then s
   else
     let s1 := s.purgeAlloc dn false
-    if (live dn s.alloc4).isEmpty then s1.purgeAlloc dn true else s1
+    if !(live dn s.alloc4).isEmpty then s1 else
+    let s2 := s1.purgeAlloc dn true
+    if !(live dn s.alloc6).isEmpty then s2 else
+    let s3 := s2.purgeDang dn false
+    if !(live dn s.dang4).isEmpty then s3 else s3.purgeDang dn true
 
 /-! ### `Local.Allocate` -/
 
@@ -533,7 +539,15 @@ def Pool.step (p : Pool) : Ev → Option Pool
         let dn := preheatIn p s1 ++ p.done
         some { p.upd i (fun _ => if toHead then s1.faHeadPurge dn else s1) with done := dn }
       else none
-    | none => none
+    | none =>
+      -- the interface was deleted while the call was in flight (its requests had been cancelled): the call can
+      -- only have failed; the error is handled, nothing else changes
+      if res.ips.isEmpty && res.err.isSome then
+        let s0 := s.assigned six res
+        let s1 := if six then { s0 with plan6 := 0 } else { s0 with plan4 := 0 }
+        let dn := preheatIn p s1 ++ p.done
+        some { p.upd i (fun _ => if toHead then s1.faHeadPurge dn else s1) with done := dn }
+      else none
   | .release i eni pod ips =>
     -- the slot that has the ENI takes it; requests of one pod do not overlap (the daemon's pending-pod
     -- guard, C04): no release while a reply to the same pod is still on its way
